@@ -232,3 +232,18 @@ Definition lt1 : ltab := [(0%N, (0%Z, [65%N])); (1%N, (1%Z, [66%N])); (2%N, (2%Z
 Example ex_attr : NoDup (node_ids g1) /\ length (snd (canon_searchA g1 lt1 [NLabel; NBip] [EStoich])) = 1 /\
   length (snd (canon_searchA g1 lt1 [] [])) = 2.
 Proof. split; [apply wf_g1|]. vm_compute. auto. Qed.
+
+(** C18_wl_respects_selected_auts / C18_wl_never_splits_orbit / C18_wl_cells_partition: the example view has a non-trivial
+    structure-preserving self-map (ex_aut_count_thm: A <-> B, r_1 <-> r_2); the WL colour cells under the default options are
+    {r_1,r_2}, {A,B}, {C}; with n_iter = 0 and without neighbours the cells are the coarser {r_1,r_2}, {A,B,C}-split by degree *)
+From SK Require Import model.C18_WLModel proof.C18_WL.
+Definition wl1 := wl_colors g1 [] [NKind] [ERole; EStoich] true true 20.
+Example ex_wl : (exists s, is_aut g1 s /\ leaf_b = map s p1) /\
+  wl_cells g1 wl1 = [[3;4];[0;1];[2]]%N /\ map fst wl1 = node_ids g1 /\
+  wl_cells g1 (wl_colors g1 lt1 [NLabel] [] false false 3) = [[0];[1];[2];[3;4]]%N.
+Proof. split; [exact ex_aut_count_thm|]. vm_compute. auto. Qed.
+Example ex_wl_autA : exists s, is_autA g1 lt1 [NKind; NBip; NNone] [EStoich; ENone] s /\ leaf_b = map s p1.
+Proof.
+  destruct ex_aut_count_thm as (s & Hs & E). exists s. split; auto.
+  apply is_aut_is_autA; auto. repeat constructor; discriminate.
+Qed.
